@@ -210,6 +210,15 @@ def fanEmptyOk (P : Nat → Pt α) (n : Nat) : Bool :=
     (polygon ((stateAtE P n k).filter (fun t => insideCirc P t (P k)))).all fun e =>
       (e.1 == k || e.2 == k) || (List.range k).all fun j => !insideCirc P (fanTri P e k) (P j)
 
+/-- executable form of `DiscAt` (Props/C20): in- and out-degree one at every vertex of the cavity boundary -/
+def discOk (Q : List Edge) : Bool :=
+  Q.all (fun e => Q.any (fun f => f.1 == e.2)) && Q.all (fun e => Q.any (fun f => f.2 == e.1)) &&
+  Q.all (fun e => Q.all (fun f => !(e.2 == f.2) || e == f)) && Q.all (fun e => Q.all (fun f => !(e.1 == f.1) || e == f))
+
+/-- executable form of the hypothesis `CavityDisc` on the model's own run (enumeration order `id`) -/
+def cavityDiscOk (P : Nat → Pt α) (n : Nat) : Bool :=
+  (List.range n).all fun k => discOk (polygon ((stateAtE P n k).filter (fun t => insideCirc P t (P k))))
+
 end FanCheck
 
 /-- output vertices are exactly the input points at `(x, 0, y)`; run on raw bit patterns -/
